@@ -382,7 +382,14 @@ def r5_new(ctx):
         if not (t and t[0] == "agg" and t[1] == "adt" and t[2].startswith(HT)):
             ctx.lost(rid, "new does not return a HashTable aggregate: %s" % show(t))
             return
-        ops = t[3]
+        # fields may be grouped into a private struct (spliced-in constructor): flatten nested aggregates
+        def flat(o):
+            if o and o[0] == "agg":
+                for x in o[3]:
+                    yield from flat(x)
+            else:
+                yield o
+        ops = list(flat(t))
         # operands that depend on the capacity argument: the argument itself (the stored bound), or a container
         # constructor that pre-allocates with it (VecDeque::with_capacity(capacity) changes no behaviour)
         dep = [o for o in ops if any(x == ("param", 1) for x in leaves(o))]
